@@ -242,17 +242,24 @@ def model (line : String) : String :=
       match items with
       | Option.none => "bad-case"
       | some items =>
-        let frames := items.mapM fun (n, p) =>
-          match mdv with
-          | Option.none => marshal n p           -- no metadata in the context (or a nil one)
-          | some _ => (encodeWith n p mdv).1
+        -- the whole pipeline through the model: Client.marshalProtoWithContext, the server loop with an
+        -- echo handler, the client's batch read loop (all messages of a batch case are well-formed,
+        -- so the all-accepting codec stands for the real registry)
+        let ctx : Option (Option Bytes) :=
+          if md = "nil" then some Option.none
+          else match mdv with
+            | Option.none => Option.none
+            | some (dl, hs) => some (some (mdMarshal hs (if hasDL dl then 1 else 0)))
+        let frames := items.mapM fun (n, p) => clientMarshal ctx n p
         match frames with
         | .error e => "E enc-" ++ errName e
         | .ok fs =>
-          let stream := fs.flatten
-          let (pres, w) := srvLoop max (stream.length + 1) stream [] []
-          let (rs, e) := cliLoop max items.length w []
-          stripRem ("D " ++ " | ".intercalate pres ++ " R " ++ " | ".intercalate rs ++ " e=" ++ e)
+          let (ds, w) := serverEcho Codec.top max fs.flatten
+          let fmtD := fun (d : Decoded) => "F n=" ++ hx d.name ++ " p=" ++ hx d.payload ++ " m=" ++ fmtMDopt d.md
+          let (rs, e) := match clientReadN Codec.top max items.length w with
+            | .ok rs => (rs, "nil")
+            | .error e => ([], errName e)
+          stripRem ("D " ++ " | ".intercalate (ds.map fmtD) ++ " R " ++ " | ".intercalate (rs.map fmtD) ++ " e=" ++ e)
     | _, _ => "bad-case"
   | ["bi", n] => (match n.toInt? with | some n => toString (bucketIndex pool n) | Option.none => "bad-case")
   | ["bie", c] => (match c.toNat? with | some c => toString (bucketIndexExact pool c) | Option.none => "bad-case")
